@@ -15,6 +15,9 @@ DOCS = ["<table>leak", "<table>leak&;", "<pre>\nx", "<p>\nx", "<table> <tr><td>x
         "<frameset><frame>", "<body><p>a<button>b<p>c<table>", "<form><p>f<table><form>g"]
 
 
+HTML_NS = "http://www.w3.org/1999/xhtml"
+
+
 class Raiser(object):
     """text source that raises after k reads"""
     def __init__(self, text, k):
@@ -85,6 +88,31 @@ class C12(Plugin):
                     "<!DOCTYPE html><title>t</title><p>a</html>", "<!DOCTYPE html><table><tr><td>x</table></html> "):
             for ctx in ("div", "table", "select", "html"):
                 out.append({"k": 1, "calls": [["parseFragment", "<b>x", {"container": ctx}], ["parse", doc, {}], ["parse", doc, {"strict": 1}]]})
+        # a parse aborted while text in a table is pending (a source that fails, a strict-mode error), then a FRAGMENT
+        # with text directly in a table on the same parser -- and the other phase-held state the same way
+        for abort in (["parse", "<table>LEAKED-TEXT<", {"fail_after": 5}], ["parse", "<table>LEAKED-TEXT\x00", {"strict": 1}],
+                      ["parse", "<!DOCTYPE html><table>leak&;", {"strict": 1}], ["parse", "<pre>&;", {"strict": 1}],
+                      ["fragment", "<table>frag-leak\x00", {"strict": 1, "container": "div"}],
+                      ["parse", "<table><tr>cell-leak<", {"fail_after": 6}]):
+            for nxt in (["fragment", "<table>second</table>", {"container": "div"}],
+                        ["fragment", "<table>\n<tbody><tr><td>x</table>", {"container": "div"}],
+                        ["fragment", "second<tr>", {"container": "table"}], ["fragment", "\nx", {"container": "pre"}],
+                        ["fragment", "<pre>\ny", {"container": "div"}], ["parse", "<table>third", {}]):
+                out.append({"k": 1, "calls": [abort, nxt, nxt]})
+        # ONE HTMLSerializer used for several calls, some of them aborted inside a raw-text element (strict-mode
+        # SerializeError, a token source that raises, a generator that is abandoned): each call compared with the same
+        # call on a fresh serializer
+        script_bad = [{"type": "StartTag", "namespace": HTML_NS, "name": "script", "data": []},
+                      {"type": "Characters", "data": "a</b"}, {"type": "EndTag", "namespace": HTML_NS, "name": "script"}]
+        style_open = [{"type": "StartTag", "namespace": HTML_NS, "name": "style", "data": []},
+                      {"type": "Characters", "data": "p{}"}, {"type": "Characters", "data": "q{}"},
+                      {"type": "EndTag", "namespace": HTML_NS, "name": "style"}]
+        text = [{"type": "StartTag", "namespace": HTML_NS, "name": "p", "data": []},
+                {"type": "Characters", "data": "1 < 2 && 3 > 2 <b>"}, {"type": "EndTag", "namespace": HTML_NS, "name": "p"}]
+        for first in ([script_bad, "strict"], [style_open, "abandon2"], [style_open, "raise2"], [script_bad, "complete"],
+                      [text, "complete"]):
+            out.append({"k": 3, "calls": [first, [text, "complete"], [style_open, "complete"], [text, "complete"]]})
+            out.append({"k": 3, "calls": [first, first, [text, "strict"]]})
         # module-level caches: tree builder modules requested with different keyword values, in every order,
         # each sequence in ONE fresh interpreter ("what a brand-new object in a fresh interpreter returns")
         for order in ([True, False], [False, True], [None, True, False], [True, None, False, True], [False, False, True]):
@@ -188,6 +216,38 @@ class C12(Plugin):
             r = subprocess.run([sys.executable, "-c", prog, json.dumps(case["order"])], capture_output=True, text=True,
                                timeout=60, env=env)
             return [json.loads(r.stdout) if r.returncode == 0 else r.stderr[-300:], []]
+        if case["k"] == 3:
+            from html5lib.serializer import HTMLSerializer, SerializeError
+
+            def run(ser, call):
+                toks, mode = call
+                ser.strict = mode == "strict"
+
+                def source():
+                    for i, t in enumerate(toks):
+                        if mode == "raise2" and i == 2:
+                            raise IOError("token source failed")
+                        yield dict(t, data=dict(t["data"]) if isinstance(t.get("data"), list) else t.get("data"))
+                try:
+                    if mode == "abandon2":
+                        g = ser.serialize(source())
+                        got = [next(g), next(g)]
+                        del g
+                        return ["abandoned", got]
+                    return ["ok", "".join(ser.serialize(source())), list(ser.errors)]
+                except SerializeError as e:
+                    return ["SerializeError", str(e)]
+                except IOError as e:
+                    return ["IOError", str(e)]
+            shared = HTMLSerializer(omit_optional_tags=False)
+            diffs, res = [], []
+            for i, call in enumerate(case["calls"]):
+                a = run(shared, call)
+                b = run(HTMLSerializer(omit_optional_tags=False), call)
+                res.append(a[0])
+                if a != b:
+                    diffs.append([i, a, b])
+            return [res, diffs]
         # histories
         shared = html5lib.HTMLParser(tree=html5lib.getTreeBuilder("dom"))
         diffs = []
@@ -203,6 +263,8 @@ class C12(Plugin):
     def oracle(self, case, out):
         if case["k"] == 1 and out[1]:
             return [("reused-parser-differs-from-fresh", repr((case["calls"], out[1])))]
+        if case["k"] == 3 and out[1]:
+            return [("reused-serializer-differs-from-fresh", repr(out[1])[:600])]
         if case["k"] == 2:
             want = [["DOCUMENT_ROOT", 3] if ft else ["html", 2] for ft in case["order"]]
             if out[0] != want:
